@@ -166,7 +166,7 @@ class World:
 
     def __init__(self, target, ctx=None, *, io_budget=20000, faults=None, chunk_choices=False,
                  send_choices=False, refuse_tcp=False, unresolvable=False, clock=1_600_000_000.25,
-                 local_ips=("10.0.0.2",), cutset=None, rx_end="timeout", send_cutset=None):
+                 local_ips=("10.0.0.2",), cutset=None, rx_end="timeout", send_cutset=None, send_regime=None):
         self.target = target
         self.ctx = ctx if ctx is not None else Ctx()
         self.io_budget = io_budget
@@ -175,6 +175,7 @@ class World:
         self.send_choices = send_choices
         self.cutset = cutset  # None: every stream offset may be a chunk boundary; else only these offsets
         self.send_cutset = send_cutset
+        self.send_regime = send_regime  # None: a send takes everything; '3/4' | '1/2' | '1': every send takes that part of what is offered (short writes)
         self.rx_end = rx_end  # what an empty receive buffer means: 'timeout' | 'close' | 'error'
         self.refuse_tcp = refuse_tcp
         self.unresolvable = unresolvable
@@ -284,6 +285,8 @@ class World:
         if fault == "send_partial" and n > 1:
             n = 1
             sock.pending_send_err = True
+        elif self.send_regime and n > 1:
+            n = {"3/4": max(1, (3 * n) // 4), "1/2": max(1, n // 2), "1": 1}[self.send_regime]
         elif self.send_choices and len(data) > 1:
             # default: everything accepted; alternatives: fewer bytes accepted (a partial send)
             cands = [k for k in range(1, len(data)) if self.send_cutset is None or (sock.tx_accepted + k) in self.send_cutset]
